@@ -117,6 +117,12 @@ def run(R, tier, rng):
         def vl2(big=big, dts=dts):
             return np.concatenate([VarLenArray(np.array(b, dtype=dt)) for b, dt in zip(big, dts)]).array.tolist()
         add("varlen " + show(big) + " @mixed-dtypes", guarded(vl2), "varlen/mixed-dtypes", len(big) >= 2, f"np.concatenate([VarLenArray(np.array(b, dtype=dt)) for b, dt in zip({big}, {dts})])", post="single")
+        # 64-bit integers that no double can hold (a float scratch matrix would round them); dtype of the result
+        huge = [[[v + 2 ** 53 + (1 if (i + j) % 2 else 2 ** 9) for j, v in enumerate(r)] for r in b] for i, b in enumerate(blocks)]
+        def vl3(huge=huge):
+            r = np.concatenate([VarLenArray(np.array(b, dtype=np.int64)) for b in huge]).array
+            return [[int(x) for x in row] for row in r.tolist()] if r.dtype == np.int64 else ["dtype", str(r.dtype)]
+        add("varlen " + show(huge) + " @huge", guarded(vl3), "varlen/huge-int64", len(huge) >= 2, f"np.concatenate([VarLenArray(np.array(b, dtype=np.int64)) for b in {huge}])", post="single")
         w0 = rng.randint(1, 6)
         def vl4(blocks=blocks, w0=w0):
             arrs = [VarLenArray(np.array(b, dtype=int)) for b in blocks]
